@@ -182,7 +182,7 @@ func init() {
 						data := w.GenSimpleList(info, 1)
 						w.ForceUnique(info, data)
 						cmd := model.CmdType{}
-						cmd.SetDataForFunction(fn.Fn, data)
+						SetCmdData(&cmd, fn.Fn, data)
 						x := &c12Write{peer: p, feat: sf, canon: CanonAny(data)}
 						kinds := []string{"approve", "approve", "approve", "deny", "silent"}
 						allApprove := w.T.Bool(1, 3, "all-approve")
